@@ -41,6 +41,7 @@ func init() {
 		"IsSymbolic":   inIsSymbolic,
 		"LibStaticWrites": inLibStaticWrites,
 		"EndPath":      inEndPath,
+		"WrotePrint":   func(fr *frame, args []value) value { return fr.path().wrotePrint },
 		"Concretize":   inConcretize,
 		"ConcretizeByte": inConcretize,
 		"InEngine":     func(fr *frame, args []value) value { return true },
